@@ -89,7 +89,16 @@ def run(ctx):
     if drv is None:
         return
     dist = {"verdicts": {}, "replay_ok": 0, "replay_diverge": 0, "oracle": 0, "races_by_design": 0,
-            "events": {}, "totals": {}, "witness": 0, "corpus_seeds": 0}
+            "events": {}, "totals": {}, "witness": 0, "corpus_seeds": 0, "corpus_traces": 0,
+            "creads_overlapping_adds": 0}
+    # hand-written histories: the driver must accept accept-*.trace and refuse reject-*.trace
+    for f in sorted((VERIF / "corpus" / "C19").glob("*.trace")):
+        txt = "\n".join(l for l in f.read_text().splitlines() if not l.startswith("#")) + "\n"
+        out = subprocess.run([str(drv)], input=txt, capture_output=True, text=True).stdout.strip()
+        dist["corpus_traces"] += 1
+        want_ok = f.name.startswith("accept")
+        if out.startswith("ok") != want_ok:
+            ctx.broke("correspondence", "corpus/C19/" + f.name, "the model driver answered %r" % out[:300])
     # fixed cases first: the witnesses of the repaired defects, then the corpus seeds
     for mode in WITNESS:
         for r in ctx.econc(exe, None, [mode], 1, 1, chunk=1):
@@ -121,8 +130,17 @@ def run(ctx):
             dist["races_by_design"] += len(r["races"])
             ok = classify(ctx, r, "hist", dist)
             st = {}
+            reading = None
             for l in r["lines"]:
                 w = l.split()
+                if len(w) > 4 and w[1] == "ev" and w[3] == "cread":
+                    if w[2] == "call":
+                        reading = [w[4], False]
+                    else:
+                        dist["creads_overlapping_adds"] += 1 if reading and reading[1] else 0
+                        reading = None
+                elif reading and len(w) > 4 and w[1] == "ev" and w[3] == "add" and w[4] == reading[0]:
+                    reading[1] = True
                 if len(w) > 2 and w[1] == "ev":
                     k = w[2] if w[2] not in ("call", "ret") else w[2] + "-" + w[3]
                     dist["events"][k] = dist["events"].get(k, 0) + 1
